@@ -13,5 +13,5 @@ Check (C03_value_sync_answer_is_current) : (forall l r rest, vl_syncq l = r :: r
 Print Assumptions C03_value_sync_answer_is_current.
 Check (C03_value_sync_before_event) : (forall l, vl_syncq l <> [] -> forall a, In a (snd (fst (vl_write l))) -> forall b, a <> LEvent b).
 Print Assumptions C03_value_sync_before_event.
-Check (C03_value_tail_converges) : (forall init ops1 ops2 r, let p1 := pexec (pipe0 init) ops1 in let p2 := pexec (pipe0 init) (ops1 ++ ops2) in Owes r p1 -> Forall (fun o => o <> PUnlink r) ops2 -> vl_dirty (p_lane p2) = false -> forall x, aget r (p_rems p2) = Some x -> v_home (r_up x) = true -> last_opt (events_of (r_sent x)) = Some (vl_content (p_lane p2))).
+Check (C03_value_tail_converges) : (forall init ops1 ops2 r, let p1 := pexec (pipe0 init) ops1 in let p2 := pexec (pipe0 init) (ops1 ++ ops2) in Owes r p1 -> Forall (fun o => o <> PUnlink r /\ o <> PStopAll) ops2 -> vl_dirty (p_lane p2) = false -> forall x, aget r (p_rems p2) = Some x -> v_home (r_up x) = true -> last_opt (events_of (r_sent x)) = Some (vl_content (p_lane p2))).
 Print Assumptions C03_value_tail_converges.
